@@ -43,11 +43,14 @@ KindOf(l) == IF l \in Block THEN "block" ELSE "allow"
 NoFile        == [ex |-> FALSE, rules |-> <<>>]
 FileOf(rules) == [ex |-> TRUE, rules |-> rules]
 
-\* State right after start-up with an empty data directory.
-S0 == [file  |-> [l \in Lists |-> NoFile],
-       count |-> [l \in Lists |-> 0],
-       sum   |-> [l \in Lists |-> <<>>],
-       eng   |-> [l \in Lists |-> {}]]
+\* State right after start-up with an empty data directory.  en = which
+\* lists are enabled (cfg.enabled is the configuration at that start-up; the
+\* admin can disable and enable lists afterwards).
+S0(cfg) == [file  |-> [l \in Lists |-> NoFile],
+            count |-> [l \in Lists |-> 0],
+            sum   |-> [l \in Lists |-> <<>>],
+            eng   |-> [l \in Lists |-> {}],
+            en    |-> cfg.enabled]
 
 ------------------------------------------------------------------------------
 (* Server behaviour for one request: a record [k, t, at, arg].             *)
@@ -100,12 +103,12 @@ MustFail(cfg, b) == Outcomes(cfg, b) = {Fail}
 \* act = [a |-> "refresh", mode |-> "forced" | "sched", kind, due]
 \*   forced: the lists of one kind (POST /control/filtering/refresh)
 \*   sched : the lists of both kinds that are due (periodic refresh)
-Selected(cfg, act) ==
-    {l \in Lists : /\ cfg.enabled[l]
+Selected(S, act) ==
+    {l \in Lists : /\ S.en[l]
                    /\ IF act.mode = "forced" THEN KindOf(l) = act.kind ELSE l \in act.due}
 
-InForce(cfg, file, l) ==
-    IF cfg.enabled[l] /\ file[l].ex
+InForce(en, file, l) ==
+    IF en[l] /\ file[l].ex
     THEN {file[l].rules[i] : i \in DOMAIN file[l].rules} ELSE {}
 
 \* ch : selected list -> the outcome of its download; newsum its checksum.
@@ -123,11 +126,11 @@ AfterWith(cfg, S, sel, ch, newsum) ==
         NetErr  == \E k \in {"block", "allow"} :
                        LET sk == {l \in sel : KindOf(l) = k} IN
                        sk # {} /\ \A l \in sk : ~ch[l].ok
-        built == [l \in Lists |-> InForce(cfg, file1, l)]
+        built == [l \in Lists |-> InForce(S.en, file1, l)]
         eng3  == IF chg # {} THEN built ELSE S.eng
         engAI == IF chg # {} /\ ~NetErr THEN built ELSE S.eng
-    IN [st     |-> [file |-> file1, count |-> cnt2, sum |-> sum2, eng |-> eng3],
-        asis   |-> [file |-> file1, count |-> cnt2, sum |-> sum2, eng |-> engAI],
+    IN [st     |-> [file |-> file1, count |-> cnt2, sum |-> sum2, eng |-> eng3, en |-> S.en],
+        asis   |-> [file |-> file1, count |-> cnt2, sum |-> sum2, eng |-> engAI, en |-> S.en],
         rew    |-> chg,                          \* lists whose file was replaced
         failed |-> {l \in sel : ~ch[l].ok}]
 
@@ -146,8 +149,8 @@ ResultsOf(cfg, S, sel, oc) ==
     IN {After(cfg, S, sel, ch) : ch \in {[l \in sel |-> IF l \in rej THEN Fail ELSE best[l]] : rej \in SUBSET soft}}
 Results(cfg, S, act, script) ==
     UNION {ResultsOf(cfg, S, sel, oc) :
-              sel \in {Selected(cfg, act)},
-              oc \in {[l \in Selected(cfg, act) |-> Outcomes(cfg, script[l])]}}
+              sel \in {Selected(S, act)},
+              oc \in {[l \in Selected(S, act) |-> Outcomes(cfg, script[l])]}}
 
 \* Restart over the same data directory: count and checksum are recomputed
 \* by parsing the stored file - from the parser's initial mode, the stored
@@ -156,11 +159,52 @@ Results(cfg, S, act, script) ==
 \* Restarted(cfg, S) = S; FilterRefresh asserts it on every Restart.
 Restarted(cfg, S) ==
     LET P(l)      == Parse(Normal(S.file[l].rules), Pol(cfg))
-        loaded(l) == cfg.enabled[l] /\ S.file[l].ex /\ P(l).ok
+        loaded(l) == S.en[l] /\ S.file[l].ex /\ P(l).ok
     IN [file  |-> S.file,
         count |-> [l \in Lists |-> IF loaded(l) THEN Count(P(l).rules) ELSE 0],
         sum   |-> [l \in Lists |-> IF loaded(l) THEN Sum(P(l).rules) ELSE <<>>],
-        eng   |-> [l \in Lists |-> InForce(cfg, S.file, l)]]
+        eng   |-> [l \in Lists |-> InForce(S.en, S.file, l)],
+        en    |-> S.en]
+
+(* Disable / Enable: set_url with the same URL and the enabled flag        *)
+(* changed.  A disabled list is UNLOADED: its rules are not in force, it    *)
+(* shows no rule count and nothing is remembered about its content (the     *)
+(* statement says nothing about disabled lists; this is the product's       *)
+(* notion, and a restart treats a disabled list the same way); its file     *)
+(* stays on disk.  Enabling a list refreshes it at once from its own        *)
+(* location:                                                                *)
+(*   - the download fails: the request is refused, the list stays disabled, *)
+(*     nothing changes;                                                     *)
+(*   - it succeeds: "a successful refresh stores the list in a normal form  *)
+(*     whose re-parse yields the same rule count and checksum" - whatever   *)
+(*     file an earlier life of the list left behind, after the request the  *)
+(*     stored form is that of the content just served, also when that       *)
+(*     content has NO rules; the list is enabled and its rules in force.    *)
+(* Whether the file is physically replaced when the served content equals   *)
+(* what the stale file holds is not said (nothing is remembered about it):  *)
+(* `rewfree` - the replacement is not compared for that list.               *)
+Disabled(S, l) ==
+    [S EXCEPT !.en[l] = FALSE, !.eng[l] = {}, !.count[l] = 0, !.sum[l] = <<>>]
+
+EnabledWith(cfg, S, l, o) ==
+    IF ~o.ok THEN [st |-> S, asis |-> S, rew |-> {}, failed |-> {l}, rewfree |-> {}]
+    ELSE LET en1  == [S.en EXCEPT ![l] = TRUE]
+             f1   == [S.file EXCEPT ![l] = FileOf(o.rules)]
+             st1  == [file  |-> f1,
+                      count |-> [S.count EXCEPT ![l] = Count(o.rules)],
+                      sum   |-> [S.sum EXCEPT ![l] = Sum(o.rules)],
+                      eng   |-> [x \in Lists |-> InForce(en1, f1, x)],
+                      en    |-> en1]
+             \* KNOWN DEVIATION (classifier / negative control only): the code
+             \* compares the checksum of the download with the zero that stands
+             \* for "unloaded"; a list without rules also sums to zero, is taken
+             \* for unchanged and is not stored: the stale file stays.
+             ai   == IF Sum(o.rules) = <<>>
+                     THEN [st1 EXCEPT !.file = S.file, !.eng = [S.eng EXCEPT ![l] = {}]]
+                     ELSE st1
+         IN [st |-> st1, asis |-> ai, rew |-> IF f1[l] = S.file[l] THEN {} ELSE {l},
+             failed |-> {}, rewfree |-> {l}]
+EnableResults(cfg, S, l, b) == {EnabledWith(cfg, S, l, o) : o \in Outcomes(cfg, b)}
 
 (* set_url with a new location whose download FAILS.  The admin API that   *)
 (* points a list at another URL downloads from it at once, with the same    *)
@@ -186,6 +230,7 @@ FailureIsNoOp(cfg, pre, sel, script, post, rew) ==
             /\ post.file[l]  = pre.file[l]
             /\ post.count[l] = pre.count[l]
             /\ post.eng[l]   = pre.eng[l]
+            /\ post.en[l]    = pre.en[l]
             /\ l \notin rew
 
 UnchangedChecksumNotRewritten(cfg, pre, sel, script, post, rew) ==
@@ -200,14 +245,15 @@ SuccessStoresNormalForm(cfg, pre, sel, script, post, rew) ==
              /\ o.ok /\ Sum(o.rules) # pre.sum[l]
              /\ post.file[l]  = FileOf(o.rules)
              /\ post.count[l] = Count(o.rules)
-             /\ post.eng[l]   = InForce(cfg, post.file, l)
+             /\ post.eng[l]   = InForce(post.en, post.file, l)
         /\ Clean(post.file[l].rules)
         /\ Parse(Normal(post.file[l].rules), Pol(cfg)) = [ok |-> TRUE, rules |-> post.file[l].rules, why |-> "ok"]
 
 \* What every state at rest looks like when the above holds from S0 on.
 Coherent(cfg, S) ==
     \A l \in Lists :
-        /\ S.count[l] = (IF S.file[l].ex THEN Count(S.file[l].rules) ELSE 0)
-        /\ S.sum[l]   = Sum(S.file[l].rules)
-        /\ S.eng[l]   = InForce(cfg, S.file, l)
+        /\ S.en[l]  => S.count[l] = (IF S.file[l].ex THEN Count(S.file[l].rules) ELSE 0)
+        /\ S.en[l]  => S.sum[l] = Sum(S.file[l].rules)
+        /\ ~S.en[l] => S.count[l] = 0 /\ S.sum[l] = <<>>
+        /\ S.eng[l] = InForce(S.en, S.file, l)
 =============================================================================
